@@ -16,7 +16,7 @@ import importlib
 import os
 
 # checks that are finished and registered in MANIFEST.json (others may exist as work in progress)
-READY = ["C02", "C03", "C04", "C05", "C06", "C08", "C09", "C10", "C11", "C12", "C13", "C14", "C15", "C17", "C18", "C19", "C20"]
+READY = ["C01", "C02", "C03", "C04", "C05", "C06", "C07", "C08", "C09", "C10", "C11", "C12", "C13", "C14", "C15", "C16", "C17", "C18", "C19", "C20"]
 
 CHECKS = {}
 for _i in range(1, 21):
